@@ -194,40 +194,7 @@ Section WithAddresses.
   Qed.
 
   (** ** to_payment on a good group *)
-  Fixpoint others_of (vs : list param) : list (bytes * bytes) :=
-    match vs with
-    | [] => []
-    | POther n v :: r => (n, v) :: others_of r
-    | _ :: r => others_of r
-    end.
-
-  Lemma pnodup_disjoint vs : forall acc, pnodupb acc vs = true ->
-    forall p0 q, In p0 acc -> In q vs -> same_kind addr p0 q = false.
-  Proof.
-    induction vs as [|x vs IH]; intros acc H p0 q Hp Hq; [destruct Hq|].
-    cbn [ProofsRender.pnodupb] in H. apply andb_true_iff in H. destruct H as [H1 H2].
-    apply negb_true_iff in H1. destruct Hq as [<-|Hq].
-    - unfold has_duplicate_param in H1. apply (existsb_false _ _ H1 p0 Hp).
-    - apply (IH (acc ++ [x]) H2); [apply in_or_app; left; exact Hp | exact Hq].
-  Qed.
-  Lemma others_of_in n v vs : In (n, v) (others_of vs) -> In (POther n v) vs.
-  Proof.
-    induction vs as [|x vs IH]; [intros []|]. destruct x; cbn [others_of]; try (intros H; right; apply IH, H).
-    intros [H|H]; [injection H as -> ->; left; reflexivity | right; apply IH, H].
-  Qed.
-  Lemma pnodup_others_nodup vs : forall acc, pnodupb acc vs = true -> nodupb (map fst (others_of vs)) = true.
-  Proof.
-    induction vs as [|x vs IH]; intros acc H; [reflexivity|].
-    cbn [ProofsRender.pnodupb] in H. apply andb_true_iff in H. destruct H as [H1 H2].
-    destruct x; cbn [others_of]; try (apply (IH _ H2)).
-    cbn [map fst nodupb]. rewrite (IH _ H2), andb_true_r. apply negb_true_iff.
-    destruct (existsb (bytes_eqb n) (map fst (others_of vs))) eqn:E; [|reflexivity].
-    apply existsb_exists in E. destruct E as (n' & Hn' & En'). apply in_map_iff in Hn'.
-    destruct Hn' as ([n2 v2] & <- & Hin). cbn [fst] in En'. apply others_of_in in Hin.
-    pose proof (pnodup_disjoint vs _ H2 (POther n v) (POther n2 v2)
-                  ltac:(apply in_or_app; right; left; reflexivity) Hin) as D.
-    cbn [same_kind] in D. congruence.
-  Qed.
+  Notation others_of := (others_of addr).
 
   Definition pay_ok (p : payment) : Prop :=
     wf_paymentb addr p = true /\ memo_rule addr can_memo p = true /\ zero_transparent_rule addr t_only p = true
@@ -281,7 +248,7 @@ Section WithAddresses.
     apply apply_params_ok in H; [|exact G | repeat split; try reflexivity; unfold zero_transparent_rule; cbn [p_addr p_amount]; rewrite andb_false_r; reflexivity].
     destruct H as [(W & M & Zr & O) Ot]. cbn [p_other app] in Ot.
     split; [exact W|]. unfold valid_paymentb. rewrite M, Zr, O. cbn [andb].
-    unfold no_duplicate_rule. rewrite Ot. eapply pnodup_others_nodup; exact N.
+    unfold no_duplicate_rule. rewrite Ot. eapply (pnodup_others_nodup addr); exact N.
   Qed.
 
   Lemma build_ok m : forall r, Forall good_group m -> build addr can_memo t_only m = Ok r ->
@@ -319,25 +286,120 @@ Section WithAddresses.
     - unfold validb. rewrite Ix. apply forallb_forall. intros ip Hip. apply (F ip Hip).
   Qed.
 
-  (** accepted URIs re-render to URIs that parse to the same request *)
-  Hypothesis addr_rt : forall a, addr_dec (addr_enc a) = Some a.
-  Hypothesis addr_enc_nonempty : forall a, addr_enc a <> [].
-  Hypothesis addr_enc_alnum : forall a, forallb is_alnum (addr_enc a) = true.
+  (** ** every address of an accepted request was produced by the address decoder *)
+  Definition decoded (a : addr) : Prop := exists s, addr_dec s = Some a.
+  Definition param_dec (q : param) : Prop := match q with PAddr a => decoded a | _ => True end.
 
-  Theorem accepted_rerender uri r : from_uri addr addr_dec can_memo t_only uri = Ok r ->
+  Lemma zcashparam_dec s ip rest : zcashparam addr addr_dec s = Some (ip, rest) -> param_dec (fst ip).
+  Proof.
+    unfold zcashparam. destruct (indexed_name s) as [[[name iopt] r]|]; [|discriminate].
+    destruct r as [|c r']; [discriminate|]. destruct (c =? 61); [|discriminate].
+    destruct (span is_qchar r') as [value r''].
+    destruct (to_indexed_param addr addr_dec name iopt value) as [ip'|] eqn:T; [|discriminate].
+    intros [= <- <-]. unfold to_indexed_param in T.
+    match type of T with match ?o with Some _ => _ | None => _ end = _ => destruct o as [q|] eqn:Eq; [|discriminate] end.
+    assert (Q : param_dec q).
+    { destruct (bytes_eqb name s_address).
+      { destruct (addr_dec value) as [a|] eqn:D; [|discriminate]. injection Eq as <-. exists value. exact D. }
+      repeat match type of Eq with
+             | (if ?b then _ else _) = _ => destruct b
+             | option_map _ ?o = _ => destruct o; [injection Eq as <-; exact I | discriminate]
+             | match ?o with Ok _ => _ | _ => _ end = _ => destruct o; try discriminate; injection Eq as <-; exact I
+             | None = Some _ => discriminate
+             end. }
+    destruct iopt as [istr|]; [destruct (parse_u64 istr); [|discriminate]|]; injection T as <-; exact Q.
+  Qed.
+  Lemma params_tail_dec fuel : forall i acc xs r, Forall (fun ip => param_dec (fst ip)) acc ->
+    params_tail addr addr_dec fuel i acc = (xs, r) -> Forall (fun ip => param_dec (fst ip)) xs.
+  Proof.
+    induction fuel as [|f IH]; intros i acc xs r Ha; cbn [params_tail]; [intros [= <- <-]; exact Ha|].
+    destruct i as [|c i1]; [intros [= <- <-]; exact Ha|].
+    destruct (c =? 38); [|intros [= <- <-]; exact Ha].
+    destruct (zcashparam addr addr_dec i1) as [[p i2]|] eqn:Z; [|intros [= <- <-]; exact Ha].
+    apply IH. apply Forall_app. split; [exact Ha|]. constructor; [|constructor]. eapply zcashparam_dec; eauto.
+  Qed.
+  Lemma params_list_dec i xs r : params_list addr addr_dec i = (xs, r) -> Forall (fun ip => param_dec (fst ip)) xs.
+  Proof.
+    unfold params_list. destruct (zcashparam addr addr_dec i) as [[p i1]|] eqn:Z; [|intros [= <- <-]; constructor].
+    apply params_tail_dec. constructor; [|constructor]. eapply zcashparam_dec; eauto.
+  Qed.
+  Lemma group_dec xs : forall m m', Forall (fun ip => param_dec (fst ip)) xs ->
+    Forall (fun g => Forall param_dec (snd g)) m -> group addr xs m = inr m' ->
+    Forall (fun g => Forall param_dec (snd g)) m'.
+  Proof.
+    induction xs as [|[p i] xs IH]; intros m m' Hx Gm; cbn [group]; [intros [= <-]; exact Gm|].
+    inversion Hx as [|? ? Gp Hx']; subst. cbn [fst] in Gp.
+    destruct (map_get i m) as [cur|] eqn:MG.
+    - destruct (has_duplicate_param addr cur p); [discriminate|]. apply IH; [exact Hx'|].
+      apply Forall_forall. intros kv Hkv. apply map_set_in in Hkv. rewrite Forall_forall in Gm.
+      destruct Hkv as [->|Hkv]; [|apply Gm, Hkv]. cbn [snd]. apply Forall_app. split; [|repeat constructor; exact Gp].
+      apply (Gm _ (map_get_in _ _ _ MG)).
+    - apply IH; [exact Hx'|]. apply Forall_forall. intros kv Hkv. apply map_set_in in Hkv. rewrite Forall_forall in Gm.
+      destruct Hkv as [->|Hkv]; [|apply Gm, Hkv]. cbn [snd]. repeat constructor. exact Gp.
+  Qed.
+  Lemma apply_params_addr vs : forall i p0 p, apply_params addr can_memo t_only vs i p0 = Ok p -> p_addr p = p_addr p0.
+  Proof.
+    induction vs as [|v vs IH]; intros i p0 p; cbn [apply_params]; [intros [= <-]; reflexivity|].
+    destruct v; try (intros H; apply IH in H; exact H).
+    - destruct (t_only (p_addr p0) && (z =? 0)); [discriminate|]. intros H. apply IH in H. exact H.
+    - destruct (can_memo (p_addr p0)); [|discriminate]. intros H. apply IH in H. exact H.
+  Qed.
+  Lemma find_addr_in vs a : find_addr addr vs = Some a -> In (PAddr a) vs.
+  Proof.
+    induction vs as [|v vs IH]; [discriminate|]. cbn [find_addr].
+    destruct v; try (intros H; right; apply IH, H). intros [= ->]. left. reflexivity.
+  Qed.
+  Lemma build_dec m : forall r, Forall (fun g => Forall param_dec (snd g)) m -> build addr can_memo t_only m = Ok r ->
+    Forall (fun ip => decoded (p_addr (snd ip))) r.
+  Proof.
+    induction m as [|[i ps] m IH]; intros r G; cbn [build]; [intros [= <-]; constructor|].
+    inversion G as [|? ? Gp G']; subst. cbn [snd] in Gp.
+    destruct (to_payment addr can_memo t_only ps i) as [p| |] eqn:T; try discriminate.
+    destruct (build addr can_memo t_only m) as [q| |] eqn:B; try discriminate. intros [= <-].
+    constructor; [|apply IH; [exact G' | reflexivity]]. cbn [snd].
+    unfold to_payment in T. destruct (find_addr addr ps) as [a|] eqn:FA; [|discriminate].
+    apply apply_params_addr in T. cbn [p_addr] in T. rewrite T.
+    rewrite Forall_forall in Gp. apply (Gp _ (find_addr_in _ _ FA)).
+  Qed.
+  Theorem accepted_addrs uri r : from_uri addr addr_dec can_memo t_only uri = Ok r ->
+    Forall (fun ip => decoded (p_addr (snd ip))) r.
+  Proof.
+    unfold from_uri. destruct (lead_addr addr addr_dec uri) as [[lead rest]|] eqn:LA; [|discriminate].
+    match goal with |- match ?o with Some _ => _ | None => _ end = _ -> _ => destruct o as [xs|] eqn:OX; [|discriminate] end.
+    assert (Gx : Forall (fun ip => param_dec (fst ip)) xs).
+    { destruct rest as [|c rest']; [injection OX as <-; constructor|].
+      destruct (c =? 63); [|discriminate]. destruct (params_list addr addr_dec rest') as [ys r'] eqn:PL.
+      destruct (is_nil r'); [|discriminate]. injection OX as <-. eapply params_list_dec; eauto. }
+    destruct (group addr xs _) as [i|m] eqn:GR; [discriminate|]. intros B.
+    eapply build_dec; [|exact B]. eapply group_dec; [exact Gx | | exact GR].
+    destruct lead as [a|]; [|constructor]. repeat constructor. cbn.
+    unfold lead_addr in LA. destruct (strip_prefix s_zcash uri) as [r0|]; [|discriminate].
+    destruct (span (fun c => negb (c =? 63)) r0) as [s rest0]. destruct (is_nil s); [discriminate|].
+    destruct (addr_dec s) as [a'|] eqn:D; [|discriminate]. injection LA as <- _. exists s. exact D.
+  Qed.
+
+  (** ** accepted URIs re-render to URIs that parse to the same request *)
+  Notation addr_ok := (addr_ok addr addr_dec addr_enc).
+  Theorem accepted_rerender uri r : (forall a, decoded a -> addr_ok a) ->
+    from_uri addr addr_dec can_memo t_only uri = Ok r ->
     from_uri addr addr_dec can_memo t_only (to_uri addr addr_enc r) = Ok r.
   Proof.
-    intros H. apply (request_roundtrip addr addr_dec addr_enc can_memo t_only addr_rt addr_enc_nonempty addr_enc_alnum).
-    apply accepted_is_valid in H. exact H.
+    intros HA H. apply (request_roundtrip addr addr_dec addr_enc can_memo t_only).
+    - apply accepted_is_valid in H. exact H.
+    - eapply Forall_impl; [|apply (accepted_addrs uri r H)]. intros ip. apply HA.
   Qed.
 
   (** a request round-trips exactly when it is valid *)
-  Theorem roundtrip_iff_valid r : wf_requestb addr r = true ->
+  Theorem roundtrip_iff_valid r : wf_requestb addr r = true -> addrs_ok addr addr_dec addr_enc r ->
     (from_uri addr addr_dec can_memo t_only (to_uri addr addr_enc r) = Ok r <-> validb addr can_memo t_only r = true).
   Proof.
-    intros W. split.
+    intros W A. split.
     - intros H. apply accepted_is_valid in H. tauto.
-    - intros V. apply (request_roundtrip addr addr_dec addr_enc can_memo t_only addr_rt addr_enc_nonempty addr_enc_alnum).
-      split; assumption.
+    - intros V. apply (request_roundtrip addr addr_dec addr_enc can_memo t_only); [split; assumption | exact A].
   Qed.
+
+  (** the global form of the oracle hypotheses implies the per-address one *)
+  Lemma global_addr_ok : (forall a, addr_dec (addr_enc a) = Some a) -> (forall a, addr_enc a <> []) ->
+    (forall a, forallb is_alnum (addr_enc a) = true) -> forall a, addr_ok a.
+  Proof. intros H1 H2 H3 a. repeat split; auto. Qed.
 End WithAddresses.
